@@ -70,7 +70,7 @@ def big_cases(tier):
                      ([([1000000, 1000001], [[0, "q"], [1, "r"]]), ([2500003], [[0, "only"]])] if tier != "quick" else []):
         total = sum(lens)
         yield "rn.big", {"lens": lens, "names0": gen.CHROMNAMES[:len(lens)], "renames": ren,
-                         "px": [[0, 0, 5], [0, total - 1, 2], [lens[0], lens[0] + 1, 1], [total - 2, total - 1, 3]]}
+                         "px": [[0, 0, 5], [0, total - 1, 2], [total // 2, total // 2 + 1, 1], [total - 2, total - 1, 3]]}
 
 
 def run(tier, seed, only_case=None):
